@@ -770,6 +770,13 @@ func ruleR117(c *Ctx) {
 							lockFns = append(lockFns, fi)
 						}
 					}
+					// a set of processes is complete when its wait group drains: Wait is the observation there
+					if sel, ok := unparen(cl.Fun).(*ast.SelectorExpr); ok && sel.Sel.Name == "Wait" {
+						if fv := fieldOf(fin, sel.X); fv != nil && isNamed(fv.Type(), "sync", "WaitGroup") {
+							lockCalls = append(lockCalls, cl)
+							lockFns = append(lockFns, fi)
+						}
+					}
 				}
 				return true
 			})
@@ -802,7 +809,7 @@ func ruleR117(c *Ctx) {
 					once = underOnce(p, sf, site)
 				}
 			}
-			c.Check(!once, lockFns[i], cl, "observation of the completion lock in "+r.Obj().Name()+".WaitUntilComplete", what, ifElse(!once, "made by a goroutine of this call", "made inside sync.Once.Do: once per instance"))
+			c.Check(!once, lockFns[i], cl, "observation of completion ("+exprString(cl.Fun)+") in "+r.Obj().Name()+".WaitUntilComplete", what, ifElse(!once, "made by a goroutine of this call", "made inside sync.Once.Do: once per instance"))
 		}
 	}
 	if n == 0 {
